@@ -1,29 +1,32 @@
 From Coq Require Import List NArith Bool Arith Lia.
-From Alp Require Import Base.Str Base.Types Model.Path Model.Import.
+From Alp Require Import Base.Str Base.Types Model.Path Model.Import Proofs.PathProofs.
 Import ListNotations.
 Local Open Scope nat_scope.
 
 Lemma imported_inv f a b c : import_decision f = OImported a b c ->
   is_symlink f = false /\ is_regular f = true /\ through_symlink f = false /\ dot_name f = false /\ in_temp_dir f = false /\ locked f = false /\
-  exists acq, detected f = Some acq /\ invalid_import_path acq = false.
+  exists acq, detected f = Some acq /\ invalid_import_path acq = false /\ is_none (file_name (ipath f) acq) = false.
 Proof.
   unfold import_decision.
   destruct (is_symlink f) eqn:E1; cbn [orb]; [discriminate|]. destruct (is_regular f) eqn:E2; cbn [negb]; [|discriminate].
   destruct (through_symlink f) eqn:E3; [discriminate|]. destruct (dot_name f) eqn:E4; cbn [orb]; [discriminate|]. destruct (in_temp_dir f) eqn:E5; [discriminate|].
   destruct (locked f) eqn:E6; [discriminate|]. destruct (detected f) as [acq|] eqn:E7; [|discriminate].
-  destruct (invalid_import_path acq) eqn:E8; [discriminate|]. intros _. repeat split; auto. exists acq. auto.
+  destruct (invalid_import_path acq) eqn:E8; [discriminate|]. destruct (is_none (file_name (ipath f) acq)) eqn:E9; [discriminate|].
+  intros _. repeat split; auto. exists acq. auto.
 Qed.
 
 (* never imported: dot-files, symlinks, non-regular files, locked files (which stay pending), paths reached through a
    symlinked directory, transfer artefacts, names the detector rejects or that are not canonical *)
 Lemma never_imported f : is_symlink f = true \/ is_regular f = false \/ dot_name f = true \/ in_temp_dir f = true \/ through_symlink f = true \/
-  locked f = true \/ detected f = None \/ (exists a, detected f = Some a /\ invalid_import_path a = true) ->
+  locked f = true \/ detected f = None \/ (exists a, detected f = Some a /\ invalid_import_path a = true) \/
+  (exists a, detected f = Some a /\ file_name (ipath f) a = None) ->
   fires_rules (import_decision f) = false /\ creates_records (import_decision f) = false /\
   (forall a b c, import_decision f <> OImported a b c).
 Proof.
   intros H. assert (G : forall a b c, import_decision f <> OImported a b c).
-  { intros a b c E. destruct (imported_inv f a b c E) as (I1 & I2 & I3 & I4 & I5 & I6 & acq & I7 & I8).
-    destruct H as [H|[H|[H|[H|[H|[H|[H|(x & Hx & Hi)]]]]]]]; congruence. }
+  { intros a b c E. destruct (imported_inv f a b c E) as (I1 & I2 & I3 & I4 & I5 & I6 & acq & I7 & I8 & I9).
+    destruct H as [H|[H|[H|[H|[H|[H|[H|[(x & Hx & Hi)|(x & Hx & Hi)]]]]]]]]; try congruence.
+    rewrite Hx in I7; injection I7 as <-. rewrite Hi in I9. discriminate. }
   split; [|split; [|exact G]]; destruct (import_decision f) eqn:E; cbn; try reflexivity; exfalso; eapply G; reflexivity.
 Qed.
 
@@ -35,7 +38,7 @@ Lemma no_registration f a b c : register f = false -> import_decision f = OImpor
 Proof.
   intros Hr. unfold import_decision.
   destruct (is_symlink f || negb (is_regular f)); [discriminate|]. destruct (through_symlink f); [discriminate|]. destruct (dot_name f || in_temp_dir f); [discriminate|].
-  destruct (locked f); [discriminate|]. destruct (detected f) as [acq|]; [|discriminate]. destruct (invalid_import_path acq); [discriminate|].
+  destruct (locked f); [discriminate|]. destruct (detected f) as [acq|]; [|discriminate]. destruct (invalid_import_path acq); [discriminate|]. destruct (is_none (file_name (ipath f) acq)); [discriminate|].
   destruct (tracked (copy_row f)); [discriminate|]. rewrite Hr. cbn [negb andb].
   destruct (acq_known f); cbn [negb andb]; [|discriminate]. destruct (file_known f); cbn [negb andb]; [|discriminate].
   intros H; injection H as <- <- _. auto.
@@ -48,7 +51,7 @@ Lemma imported_copy f a b c : import_decision f = OImported a b c ->
 Proof.
   unfold import_decision.
   destruct (is_symlink f || negb (is_regular f)); [discriminate|]. destruct (through_symlink f); [discriminate|]. destruct (dot_name f || in_temp_dir f); [discriminate|].
-  destruct (locked f); [discriminate|]. destruct (detected f) as [acq|]; [|discriminate]. destruct (invalid_import_path acq); [discriminate|].
+  destruct (locked f); [discriminate|]. destruct (detected f) as [acq|]; [|discriminate]. destruct (invalid_import_path acq); [discriminate|]. destruct (is_none (file_name (ipath f) acq)); [discriminate|].
   destruct (tracked (copy_row f)) eqn:Et; [discriminate|].
   destruct (negb (acq_known f) && negb (register f)); [discriminate|]. destruct (negb (file_known f) && negb (register f)); [discriminate|].
   intros H; injection H as <- <- <-. repeat split; auto.
@@ -56,6 +59,54 @@ Proof.
   - intros r ->. reflexivity.
   - destruct (copy_row f) as [[h w]|]; [|reflexivity]. unfold revive. cbn [snd]. destruct (wants_eqb w WY); reflexivity.
 Qed.
+
+(* ---- the file name (fix F-C06d) ---- *)
+Lemma strip_prefix_app a b l : strip_prefix a b = Some l -> b = a ++ l.
+Proof.
+  revert b; induction a as [|x a IH]; intros b; cbn [strip_prefix].
+  - intros H; injection H as <-; reflexivity.
+  - destruct b as [|y b]; [discriminate|]. destruct (str_eqb x y) eqn:E; [|discriminate]. apply str_eqb_eq in E; subst y.
+    intros H; apply IH in H; subst b; reflexivity.
+Qed.
+Lemma join_app a l : a <> [] -> l <> [] -> join (a ++ l) = join a ++ [47%N] ++ join l.
+Proof.
+  induction a as [|x a IH]; intros Ha Hl; [congruence|].
+  destruct a as [|y a].
+  - cbn [app]. rewrite join_cons by exact Hl. reflexivity.
+  - change ((x :: y :: a) ++ l) with (x :: ((y :: a) ++ l)). rewrite join_cons by (cbn; discriminate). rewrite IH by (auto; discriminate).
+    rewrite (join_cons x (y :: a)) by discriminate. rewrite <- !app_assoc. reflexivity.
+Qed.
+(* what is registered is the path split in two: acquisition + "/" + file name, the file name a canonical name of its own *)
+Lemma file_name_sound p acq n : file_name p acq = Some n -> invalid_import_path n = false /\ p = acq ++ [47%N] ++ n.
+Proof.
+  unfold file_name, relative_to. destruct (strip_prefix (split acq) (split p)) as [l|] eqn:E; [|discriminate].
+  apply strip_prefix_app in E. destruct l as [|c l].
+  - cbn. discriminate.
+  - destruct (invalid_import_path (join (c :: l))) eqn:Ei; [discriminate|]. intros H; injection H as <-. split; [exact Ei|].
+    rewrite <- (join_split p), E, join_app, join_split; [reflexivity | apply split_aux_nonempty | discriminate].
+Qed.
+Lemma file_name_canonical p acq n : file_name p acq = Some n -> canonical n = true /\ p = acq ++ [47%N] ++ n.
+Proof. intros H. destruct (file_name_sound p acq n H) as [Hv Hp]. split; [|exact Hp]. rewrite invalid_iff_not_canonical in Hv. destruct (canonical n); [reflexivity | discriminate]. Qed.
+Lemma file_name_not_self p : file_name p p = None.
+Proof.
+  unfold file_name, relative_to. assert (H : strip_prefix (split p) (split p) = Some []).
+  { induction (split p) as [|x l IH]; cbn [strip_prefix]; [reflexivity|]. rewrite str_eqb_refl. exact IH. }
+  rewrite H. reflexivity.
+Qed.
+Lemma imported_names f a b c : import_decision f = OImported a b c ->
+  exists acq n, detected f = Some acq /\ invalid_import_path acq = false /\ file_name (ipath f) acq = Some n /\
+                invalid_import_path n = false /\ ipath f = acq ++ [47%N] ++ n.
+Proof.
+  intros E. destruct (imported_inv f a b c E) as (_ & _ & _ & _ & _ & _ & acq & I7 & I8 & I9).
+  destruct (file_name (ipath f) acq) as [n|] eqn:En; [|discriminate]. exists acq, n. destruct (file_name_sound _ _ _ En). auto.
+Qed.
+Example file_name_examples :
+  let s := map N.of_nat in
+  file_name [50;48;50;52;47;114;47;97]%N [50;48;50;52]%N = Some [114;47;97]%N /\          (* "2024/r/a" under "2024" -> "r/a" *)
+  file_name [50;48;50;52;47;114;47;97]%N [50;48;50;52;47;114;47;97]%N = None /\          (* the path itself: "." is no name *)
+  file_name [50;48;50;52;47;114;47;97]%N [50;48;50]%N = None /\                          (* a string prefix is not a parent *)
+  file_name [50;48;50;52;47;114;47;97]%N [111]%N = None.                                   (* a sibling *)
+Proof. cbn. repeat split; reflexivity. Qed.
 
 (* request vetting: absolute, non-canonical or out-of-tree paths never reach a task *)
 Lemma vet_sound ab mk rc rs it p : vet_request ab mk rc rs it p = VImport -> ab = false /\ rc = false /\ invalid_import_path p = false.
